@@ -58,9 +58,11 @@ def cat_codec(items):
     return [str(x) for x in vCategory.from_ical(vCategory(items).to_ical())]
 
 
-def cat_property(items):
+def cat_property(items, form=list):
+    """form: how the items are handed to add(): list, tuple, or a one-shot iterator (generator / map / iter)"""
     try:
-        ev2, wire = _prop_roundtrip("categories", list(items))
+        handed = {"gen": lambda: (x for x in list(items)), "map": lambda: map(str, list(items)), "iter": lambda: iter(list(items))}.get(form, lambda: form(items))()
+        ev2, wire = _prop_roundtrip("categories", handed)
     except Exception:
         return False, None, None
     v = ev2.get("categories")
